@@ -66,26 +66,51 @@ Section ToExec.
         | Nd KFragmentSpread (d :: ANode nm :: ANone :: _) =>
           option_map (SSpread (name_str nm)) (dirs_of d)
         | Nd KInlineFragment (d :: ANode s' :: tc :: _) =>
-          match dirs_of d, sels_of s' with
-          | Some dirs, Some sub =>
-            Some (SInline (match tc with
-                           | ANode (Nd KNamedType (ANode nm :: _)) => Some (name_str nm)
-                           | _ => None
-                           end) dirs sub)
-          | _, _ => None
+          match dirs_of d, sels_of s',
+                match tc with
+                | ANode (Nd KNamedType (ANode nm :: _)) => Some (Some (name_str nm))
+                | ANode _ => None
+                | _ => Some None
+                end with
+          | Some dirs, Some sub, Some c => Some (SInline c dirs sub)
+          | _, _, _ => None
           end
         | _ => None
         end) sels)
     | _ => None
     end.
 
+  (* a constant: no variable inside (defaults of variable definitions) *)
+  Fixpoint has_var (v : value) : bool :=
+    match v with
+    | VVar _ => true
+    | VList l => existsb has_var l
+    | VObj fs => existsb (fun kv => has_var (snd kv)) fs
+    | _ => false
+    end.
+
+  (* no non-null directly under non-null *)
+  Fixpoint ty_norm (t : ty) : bool :=
+    match t with
+    | TNonNull (TNonNull _) => false
+    | TNonNull t' => ty_norm t'
+    | TList t' => ty_norm t'
+    | TNamed _ => true
+    end.
+
   Definition vardef_of (vd : node) : option var_def :=
     match vd with
-    | Nd KVariableDefinition (_ :: _ :: ANode t :: dv :: _) =>
-      match dv with
-      | ANode v => option_map (fun x => mkVar (vardef_name vd) (ty_of t) (Some x)) (val_of v)
-      | _ => Some (mkVar (vardef_name vd) (ty_of t) None)
-      end
+    | Nd KVariableDefinition (_ :: _ :: ANode t :: dv :: _ :: _) =>
+      if ty_norm (ty_of t) then
+        match dv with
+        | ANode v =>
+          match val_of v with
+          | Some x => if has_var x then None else Some (mkVar (vardef_name vd) (ty_of t) (Some x))
+          | None => None
+          end
+        | _ => Some (mkVar (vardef_name vd) (ty_of t) None)
+        end
+      else None
     | _ => None
     end.
 
